@@ -137,6 +137,11 @@ class Prop(PropBase):
         # ---- ENABLE_TRANSFORM: the identity pose of one driver is not disturbed by another driver's pose in the same process
         # (run on the transform build only, against the model, which applies each instance's own pose)
         out.append(('tfpair', '\n'.join(scen.tf_pair_scenario(rng, L, f'c20_tfpair_{k}', a, b) for k, (a, b) in enumerate([('RS16', 'RS16'), ('RS32', 'RSHELIOS')])) + '\n'))
+        # ---- both sockets readable at one wake-up (distinct ports, bursts queued before the receiver starts), on every build:
+        # each datagram exactly once, intact, in the order of its socket (scenarios and oracle of C10's receiving-side batch)
+        from props import C10 as C10mod
+        self.c10 = C10mod.Prop(); self.c10.setup(self.L, self.G, self.C)
+        out.append(('sockburst', [txt for (bn, txt) in self.c10.generate(rng, 'quick') if bn == 'sockburst'][0]))
         # ---- threaded inputs
         pc, so = [], []
         ttypes = rng.sample(scen.MECH, 2) + ['RSM1'] if tier == 'quick' else scen.ALL
@@ -253,6 +258,22 @@ class Prop(PropBase):
                 return self.judge2(bname, inp, impl_path, model_path, impl_log, violations, broken, stats)
             finally:
                 self.projection = saved
+        if bname == 'sockburst' or (bname == 'replay' and '\nN 0 4 ' in open(inp).read() and 'c10_sockburst' in open(inp).read()):
+            if not hasattr(self, 'c10'):
+                from props import C10 as C10mod
+                self.c10 = C10mod.Prop(); self.c10.setup(self.L, self.G, self.C)
+            self.c10.judge_sockburst(inp, impl_path, impl_log, violations, stats)
+            for v in [x for x in self.harness_variants if x not in ('asan', 'asan+crc', 'asan+crcall')]:
+                outp = impl_path[:-5] + '.' + v.replace('+', '_')
+                rc, out, dt = self.C.run_impl(self.exes[v], inp, outp)
+                if rc != 0:
+                    violations.append((f'crash:{v}', f'build {v} ({" ".join(self.defines[v])}) failed on batch {bname} rc={rc}: {out[-500:]}', open(inp).read()[:100000])); continue
+                before = len(violations)
+                self.c10.judge_sockburst(inp, outp, out, violations, stats)
+                for k in range(before, len(violations)):
+                    key, desc, payload = violations[k]
+                    violations[k] = (f'{key}:{v}', f'build {v} ({" ".join(self.defines[v])}): {desc}', payload)
+            return
         if bname == 'tfpair':
             saved = self.projection
             self.projection = dict(saved, xyz_rigid_tol=10.0)     # rotated points: judged against the length of the vector
